@@ -341,8 +341,8 @@ def tier_plan(tier):
     The number of environment flips is part of the .cfg (MaxFlips)."""
     if tier == "quick":
         return [("EX", None, 40), ("EEXX", None, 40), ("EXEX", None, 40), ("EEXXEX", None, 40),
-                ("EX_EX", None, 150), ("EEXX_EX", None, 300), ("EXEX_EX", None, 300),
-                ("EEXX_EX_EX", 1000, 300), ("XEXX", None, 0), ("XEX_X", None, 0)]
+                ("EX_EX", None, 100), ("EEXX_EX", None, 150), ("EXEX_EX", None, 150),
+                ("EEXX_EX_EX", 600, 150), ("XEXX", None, 0), ("XEX_X", None, 0)]
     return [("EX", None, "all"), ("EEXX", None, "all"), ("EXEX", None, "all"), ("EEXXEX", None, "all"),
             ("EX_EX", None, "all"), ("EEXX_EX", None, "all"), ("EXEX_EX", None, "all"), ("EXEX_EXEX", None, 3000),
             ("EEXXEX_EX", None, 3000), ("EX_EX_EX", None, 3000), ("EEXX_EX_EX", None, 3000), ("XEXX", None, 0),
